@@ -335,6 +335,11 @@ type pgenOpts struct {
 	UnpackedScalars bool
 	// NoPackedFixed: no repeated field of a fixed-width kind (fixed32/64, sfixed32/64, float, double).
 	NoPackedFixed bool
+	// SharedMapNames: map fields of different messages may carry the same name (their synthesized entry messages are
+	// then homonymous: M0.ExtraEntry, M1.ExtraEntry) while their key / value types differ.
+	SharedMapNames bool
+	// RecursiveAnyCard: with Recursive, the self reference may be a repeated field.
+	RecursiveAnyCard bool
 }
 
 func (k pKind) fixedWidth() bool {
@@ -351,7 +356,11 @@ type pgen struct {
 	used map[int]bool // field numbers in use (schema-wide, or per message with SharedNumbers)
 	next int
 	fctr int
+	// names in use in the message under construction (SharedMapNames)
+	msgNames map[string]bool
 }
+
+var sharedMapNames = []string{"extra", "labels", "kv_x"}
 
 // The library's descriptor keeps a slice indexed by field number (internal/util.FieldIDMap), i.e.
 // 8 bytes x the largest number per message: 2^29-1 costs 4 GiB per message descriptor and cannot be
@@ -447,6 +456,7 @@ func genPSchema(t *simrt.Tape, o pgenOpts) *PSchema {
 			g.next = 1
 		}
 		nf := 1 + t.Intn(o.MaxFields, "pm.nfields")
+		g.msgNames = map[string]bool{}
 		var selfRef *PField
 		for fi := 0; fi < nf; fi++ {
 			f := &PField{Name: g.fieldName(mi)}
@@ -477,6 +487,9 @@ func genPSchema(t *simrt.Tape, o pgenOpts) *PSchema {
 				} else if o.Recursive && selfRef == nil && t.Chance(1, 4, "pf.msg.self") {
 					target = m
 					f.Card = cSingle
+					if o.RecursiveAnyCard && t.Chance(1, 2, "pf.msg.self.repeated") {
+						f.Card = cRepeated
+					}
 				} else if mi+1 < nm {
 					target = g.s.Msgs[mi+1+t.Intn(nm-mi-1, "pf.msg.later")]
 				}
@@ -499,6 +512,12 @@ func genPSchema(t *simrt.Tape, o pgenOpts) *PSchema {
 			}
 			if f.Card == cMap {
 				f.KeyK = g.keyKind()
+				if o.SharedMapNames && t.Chance(1, 2, "pf.sharedname") {
+					if n := sharedMapNames[t.Intn(len(sharedMapNames), "pf.sharedname.which")]; !g.msgNames[n] {
+						g.msgNames[n] = true
+						f.Name = n
+					}
+				}
 			}
 			if o.UnpackedScalars && f.Card == cRepeated && f.K.packable() && t.Chance(1, 3, "pf.unpacked") {
 				f.Unpacked = true
